@@ -200,7 +200,7 @@ def gen_cases(rng, tier):
         for alpha in [(0, 1, 4), (0, 4, 30)]:
             refs = list(words(alpha, 6, 6))
             tgts = list(words(alpha, 6, 6))
-            for _ in range(150000):
+            for _ in range(60000):
                 cs.append(f"enc {rng.choice([4, 5, 6])} {hx(rng.choice(refs))} {hx(rng.choice(tgts))}")
     # ---- N runs of length 1..6 (and longer) in various positions; targets shorter than the key
     for mml in ([5, 8, 20] if not thorough else [4, 5, 6, 8, 11, 20, 32]):
@@ -217,7 +217,7 @@ def gen_cases(rng, tier):
             for ref in (t, t[:-1], t + [1], [], _acgt(rng, 2 * n + 8), t + t):
                 cs.append(f"enc {mml} {hx(ref)} {hx(t)}")
     # ---- random and mutation-derived pairs
-    npairs = 2500 if not thorough else 60000
+    npairs = 2500 if not thorough else 40000
     for k in range(npairs):
         mml = _mml(rng)
         if not thorough:
@@ -230,7 +230,7 @@ def gen_cases(rng, tier):
             maxlen = 900
         ref, tgt = _pair(rng, maxlen)
         cs.append(f"enc {mml} {hx(ref)} {hx(tgt)}")
-        if k % 3 == 0 and maxlen <= 4000:
+        if k % (3 if not thorough else 7) == 0 and maxlen <= 4000:
             cs.append(f"est {mml} {hx(ref)} {hx(tgt)} {rng.choice([0, 3, 20, 100, 1000000])}")
             cs.append(f"cost {mml} {hx(ref)} {hx(tgt)} {k % 2}")
     # ---- edge / malformed stream
@@ -250,7 +250,7 @@ def gen_cases(rng, tier):
     cs.append("enc 5 - -")
     for _ in range(200):
         cs.append(f"hash {rng.getrandbits(rng.choice([8, 32, 58, 64])):x}")
-    nd = 4000 if not thorough else 150000
+    nd = 4000 if not thorough else 100000
     for _ in range(nd):
         mml = _mml(rng)
         ref = _acgt(rng, rng.choice([0, 1, 5, 20, 60]))
